@@ -168,6 +168,18 @@ class Checker:
         failed = []
         for name, obs in groups.items():
             sts = [self.results[o.uid]['status'] for o in obs]
+            if obs[0].kind == 'cover' and name.endswith('.before'):
+                continue
+            if obs[0].kind == 'cover' and name.endswith('.after'):
+                # hypotheses became contradictory by assuming a callee contract although they were consistent before
+                bef = groups.get(name[:-len('.after')] + '.before', [])
+                for o in obs:
+                    if self.results[o.uid]['status'] == 'vacuous':
+                        twin = [b for b in bef if len(b.hyps) <= len(o.hyps) and all(x.eq(y) for x, y in zip(b.hyps, o.hyps))]
+                        if not twin or any(self.results[b.uid]['status'] != 'vacuous' for b in twin):
+                            self.problems.append('vacuity: assuming the callee contract at %s makes the hypotheses contradictory' % name)
+                            break
+                continue
             if obs[0].kind == 'cover':
                 if any(s == 'vacuous' for s in sts):
                     self.problems.append('vacuity: hypotheses of %s are contradictory' % name)
